@@ -38,6 +38,9 @@ def main():
         if a.replay:
             import replay
             sys.exit(replay.run(a.replay))
+        if a.prop == "extra":
+            import extra_checks
+            sys.exit(extra_checks.run())
         if a.prop == "selftest":
             import selftest
             sys.exit(selftest.run())
